@@ -107,12 +107,12 @@ def gen(rng, tier, index):
         # the application stops the gateway from inside the event callback of the last change (threaded flavours: on the
         # thread that is handling that message)
         ops.append(["advance", rng.choice([10.2, 10.5])])
-        ops.append(["stop_from_callback", rng.choice([f"{rng.choice([1, 2, 3])};255;3;0;0;{rng.randint(1, 99)}", f"{rng.choice([1, 2, 3])};255;3;0;11;bye",
+        ops.append(["stop_from_callback", rng.choice(["{n};255;3;0;0;" + str(rng.randint(1, 99)), "{n};255;3;0;11;bye",
                                                       f"{rng.choice([82, 83])};255;0;0;17;2.0"])])
-    elif rng.random() < 0.12:
+    elif rng.random() < 0.18:
         # the last change is still inside the application's (slow) event callback when stop() is called
         ops.append(["advance", rng.choice([10.2, 10.5])])
-        ops.append(["stop_in_callback", rng.choice([f"{rng.choice([1, 2, 3])};255;3;0;0;{rng.randint(1, 99)}", f"{rng.choice([1, 2, 3])};255;3;0;11;slow",
+        ops.append(["stop_in_callback", rng.choice(["{n};255;3;0;0;" + str(rng.randint(1, 99)), "{n};255;3;0;11;slow",
                                                     f"{rng.choice([80, 81])};255;0;0;17;2.0"])])
     else:
         if cfg["flavour"] not in ("mqtt", "amqtt") and rng.random() < 0.3:
